@@ -79,7 +79,7 @@ def run(tier):
             verdict.fail({"cls": e["cls"], "clause": clause, "cfg": {"par": e["par"], "value": e["value"], "outcome": e["outcome"]}},
                          {"probe": probes[fl["i"] - 1], "event": e, "clause": clause})
     # (b) NoGarbage over the admissible scan campaigns
-    fm = fams({"FIN"}, extra=("EHEP", "EPpiston", "Mader", "BBNoh", "SDRZ", "RiemannGen", "RiemannJWL", "RMTV"))
+    fm = fams({"FIN"}, extra=("EHEP", "EPpiston", "Mader", "BBNoh", "SDRZ", "RiemannGen", "RiemannJWL", "RMTV", "Guderley"))
     fm["RadShock"] = ("radshock", {"RAD", "FIN"})
     fm["SuOlson"] = ("suolson", {"SUOL", "FIN"})
     for f_ in ("Kenamond1", "Kenamond2", "Kenamond3", "DSDcyl"):
